@@ -169,6 +169,16 @@ pub fn non_numbers(thorough: bool) -> Vec<OwnedTerm> {
     for (n, id, serial, cr) in [("n@h", 1u32, 2u32, 3u32), ("n@h", 1, 3, 3), ("n@h", 2, 2, 3), ("n@h", 1, 2, 4), ("m@h", 1, 2, 3)] {
         out.push(OwnedTerm::InternalFun(Box::new(erltf::types::InternalFun::new(1, [5u8; 16], 1, 0, Atom::new("m"), 2, 3, pid(n, id, serial, cr), vec![]))));
     }
+    // binaries of 64..130 bytes that differ in two bytes of one 8-byte word in opposite directions, at several offsets
+    for len in [64usize, 65, 72, 130] {
+        for off in [0usize, 8, 56, len - 8] {
+            let base: Vec<u8> = (0..len).map(|i| (i % 200) as u8 + 10).collect();
+            let (mut a, mut b) = (base.clone(), base.clone());
+            a[off] += 1; b[off + 7] += 1;           // a is larger at the earlier byte, b at the later one
+            let mut c = base.clone(); c[off + 3] += 1; c[off + 4] -= 1;
+            for x in [base, a, b, c] { out.push(OwnedTerm::Binary(x)); }
+        }
+    }
     // lists of bytes that are not UTF-8 text (Latin-1 "cafè" / "café"), next to their neighbours
     for l in [vec![200i64], vec![201], vec![99, 97, 102, 232], vec![99, 97, 102, 233], vec![255, 254], vec![255, 255], vec![128], vec![127]] { out.push(OwnedTerm::List(l.into_iter().map(int).collect())); }
     out.push(OwnedTerm::ExternalFun(ExternalFun::new(Atom::new("m"), Atom::new("f"), 1)));
